@@ -154,6 +154,34 @@ def regionsDefinedBeforeUse (doc : Str) : Bool :=
       else go ls defined
   go lines []
 
+/-- Documents the independent decoder accepts but on which the library's dialect is known to differ
+    (machine-checked witnesses in `Props/C02read.lean`, reported in `notes/agents/proof-vttread-report.txt`);
+    none is a rendering the property quantifies over, all can arise by mutation of a valid document:
+    `NOTE` followed by a tab (the library only knows `NOTE␣`), a region `lines=` value beyond int64, and a
+    tag that contains `=` or a form feed (the HTML tokenizer reads quoted attribute values and takes the
+    form feed for white space). The read predicate does not judge them. -/
+def vttOutside (text : Str) : Bool :=
+  let lines := Spec.VTT.splitLines text []
+  let rec inTag : List Char → Bool → Bool
+    | [], _ => false
+    | '<' :: c :: rest, false => if c.isAlpha || c = '/' then inTag rest true else inTag (c :: rest) false
+    | '>' :: rest, true => inTag rest false
+    | c :: rest, true => c = '=' || c = Char.ofNat 12 || inTag rest true
+    | _ :: rest, false => inTag rest false
+  let rec longDigits : List Char → Nat → Bool
+    | [], n => decide (19 ≤ n)
+    | c :: rest, n => if c.isDigit then longDigits rest (n + 1) else decide (19 ≤ n) || longDigits rest 0
+  lines.any fun l =>
+    let t := trimSpace l
+    hasPrefix "NOTE\t".toList t ||
+    (hasPrefix "Region: ".toList t && longDigits t 0) ||
+    inTag t false
+
+/-- an inline timestamp of zero is "no timestamp" to the library (`LineItem.StartAt = 0`) -/
+def zeroTs (g : Spec.VTT.GDoc) : Spec.VTT.GDoc :=
+  { g with cues := g.cues.map fun c => { c with lines := c.lines.map fun l =>
+      { l with runs := l.runs.map fun r => if r.ts == some 0 then { r with ts := none } else r } } }
+
 def handleVTT (op : String) (args impl : List String) : Verdict :=
   match op, args with
   | "vtt.read", [doc] =>
@@ -168,7 +196,8 @@ def handleVTT (op : String) (args impl : List String) : Verdict :=
           match decodeLine doc with
           | none => true
           | some text =>
-            match Spec.VTT.decode text with
+            if vttOutside text then true else
+            match (Spec.VTT.decode text).map zeroTs with
             | none => true
             | some g =>
               match impl with
